@@ -47,7 +47,7 @@ def contract(E, n, members_before, names_before):
             fails.append("hash differs from the integer's")
         if int(x) != n:
             fails.append("int() does not give the integer back")
-        if getattr(x, "name", None) != f"Unrecognized({n})":
+        if getattr(x, "name", None) != f"Unrecognized({int(n)})":
             fails.append(f"name is {getattr(x, 'name', None)!r}")
         if getattr(x, "value", None) != n:
             fails.append("value differs")
@@ -59,7 +59,7 @@ def contract(E, n, members_before, names_before):
         isin = n in E            # 3.12+: value membership; earlier versions raise TypeError for non-members
     except TypeError:
         isin = None
-    if isin is not None and isin != (n in declared):
+    if type(n) is int and isin is not None and isin != (n in declared):
         fails.append("membership of the integer in the enum changed (unrecognized value registered as a member)")
     if len(E) != len(members_before):
         fails.append("len(enum) changed")
@@ -126,6 +126,20 @@ def main():
             f = contract(E, n, members, names)
             if f:
                 failures.append({"enum": E.__qualname__, "value": n, "failed": f})
+                if len(failures) > 5:
+                    break
+        # integers that are not plain ints: the enum's own members (the constructor must hand back that very member), bools,
+        # members of another enum, instances of an int subclass, earlier Unrecognized instances fed back in
+        class MyInt(int):
+            pass
+        other = [m for O in enums[:4] if O is not E for m in O]
+        odd = list(members) + [True, False] + other + [MyInt(k) for k in (0, 1, 7, 253, 999)] + [E(k) for k in (998, -7, 64009)]
+        rng.shuffle(odd)
+        for n in odd:
+            evals += 1
+            f = contract(E, n, members, names)
+            if f:
+                failures.append({"enum": E.__qualname__, "value": repr(n), "value_type": type(n).__name__, "failed": f})
                 if len(failures) > 5:
                     break
         if len(samples) < 6:
